@@ -265,3 +265,12 @@ def sd_fields(buf: bytes):
                 f.append((p + 4, 1))
             p += 3 + ln
     return f
+
+
+def valid_sd_payload(r, maxrun=15):
+    """bytes of an encodable SD payload (retries when the random message is not representable)"""
+    while True:
+        try:
+            return bytes(sd_header(r, maxrun=maxrun).assign_option_indexes().build())
+        except Exception:  # noqa: BLE001 - unrepresentable draw
+            continue
